@@ -206,9 +206,21 @@ def effective_transport(op):
     return "mosek"
 
 
-def failing_solve(rng, P, out, peer_mode="tagged"):
+INTERRUPT_TARGETS = ["add_class_constraints", "_solve_with_wrapper", "_eval_points_and_function_values",
+                     "check_feasibility", "send_constraint_to_solver", "send_lmi_constraint_to_solver",
+                     "add_partition_constraints", "assign_dual_values", "_recover_dual_values", "generate_problem",
+                     "expression_to_matrices", "expression_to_sparse_matrices", "_expression_to_solver",
+                     "add_constraint", "get_block", "add_constraints_from_two_lists_of_points", "set_main_variables"]
+
+
+def failing_solve(rng, P, out, peer_mode="tagged", b=None):
     """A solve of the same PEP object that fails: scripted solver failure, Ctrl-C at some line, stream error."""
     f = draw_solve(rng, P, out, peer_mode=peer_mode if peer_mode == "tagged" else "tagged")
+    targets = list(INTERRUPT_TARGETS)
+    if b is not None and b.parts:
+        targets += ["add_partition_constraints", "add_constraint", "add_partition_constraints", "get_block"] * 3
+    if b is not None and b.psds:
+        targets += ["send_lmi_constraint_to_solver"] * 4
     kind = rng.choice(["script", "script", "interrupt", "interrupt", "stdout"])
     if kind == "script":
         f["peer"]["script"] = {"1": rng.choice([{"action": "raise"}, {"action": "status", "status": "infeasible"},
@@ -218,10 +230,7 @@ def failing_solve(rng, P, out, peer_mode="tagged"):
         if rng.random() < 0.5:
             f["faults"] = {"interrupt": {"at": int(10 ** rng.uniform(0, 3.9))}}
         else:
-            f["faults"] = {"interrupt": {"at": int(10 ** rng.uniform(0, 2.3)), "fn": rng.choice(
-                ["add_class_constraints", "_solve_with_wrapper", "_eval_points_and_function_values",
-                 "check_feasibility", "send_constraint_to_solver", "send_lmi_constraint_to_solver",
-                 "add_partition_constraints", "assign_dual_values", "_recover_dual_values", "generate_problem"])}}
+            f["faults"] = {"interrupt": {"at": int(10 ** rng.uniform(0, 2.3)), "fn": rng.choice(targets)}}
     else:
         f["cfg"]["verbose"] = rng.choice([1, 2])
         f["faults"] = {"stdout": {"at": rng.randrange(1, 60), "errno": rng.choice(["EPIPE", "ENOSPC"])}}
@@ -306,8 +315,8 @@ def gen_session(rng, tier, peer_mode=None, nsolves=None, allow_mosek=True, allow
     for s in range(nsolves):
         if s > 0 and edits and rng.random() < (0.9 if edit_bias else 0.6):
             ops += edit_ops(rng, b, s, bias=edit_bias)
-        if faults and (s > 0 or rng.random() < 0.5) and rng.random() < 0.25:
-            ops.append(failing_solve(rng, b.P, "fail%d" % s, peer_mode))
+        if faults and (s > 0 or rng.random() < 0.5) and rng.random() < (faults if isinstance(faults, float) else 0.25):
+            ops.append(failing_solve(rng, b.P, "fail%d" % s, peer_mode, b=b))
         ops.append(draw_solve(rng, b.P, "tau%d" % s, peer_mode=peer_mode, allow_mosek=allow_mosek,
                               allow_heuristic=allow_heuristic))
         if class_duals:
